@@ -5,11 +5,11 @@
    [U] C04_enumeration       the identifiables map lists each identifiable element once, under its path, nothing else
    [U] C04_unique_paths      no two identifiable elements of one model have the same path
    [U] C04_path_concat       Element::path() = concatenation of "/"+item name over identifiable ancestors-or-self
-   Pending04 (constructor list): OpCopy OpCopyAt OpMove OpMoveAt OpRemove OpRemoveKind OpSetItemName OpRemoveFile
+   Pending04 (constructor list): OpCopy OpCopyAt OpMove OpMoveAt OpSetItemName OpRemoveFile
    OpRemoveFromFile, and OpSetCData on a SHORT-NAME element that already has text. *)
 From AV Require Import Base.Bytes Base.Outcome Hash.HashModel Tree.Heap Tree.Ops Tree.Script Tree.IndexProofsW
   Tree.Index Tree.IndexProofsBase Tree.IndexProofsAssoc Tree.IndexProofsFrame Tree.IndexProofsAttach
-  Tree.IndexProofsCreate Tree.IndexProofsNamed Tree.IndexProofsEdit Tree.IndexProofsModel.
+  Tree.IndexProofsCreate Tree.IndexProofsNamed Tree.IndexProofsEdit Tree.IndexProofsModel Tree.IndexProofsRemoveOp.
 Open Scope string_scope.
 Open Scope list_scope.
 Open Scope N_scope.
@@ -54,6 +54,8 @@ Proof.
   - apply welem_inv in H as (r0 & H). eapply C04_create_sub_at; eauto.
   - apply welem_inv in H as (r0 & H). eapply C04_create_named; eauto.
   - apply welem_inv in H as (r0 & H). eapply C04_create_named_at; eauto.
+  - apply wunit_inv in H as (r0 & H). eapply C04_remove; eauto.
+  - apply wunit_inv in H as (r0 & H). eapply C04_remove_kind; eauto.
   - apply wunit_inv in H as (r0 & H). eapply C04_set_cdata_plain; eauto.
     intros n Hn. cbn [Pending04] in HP. rewrite Hn in HP. exact HP.
   - apply wunit_inv in H as (r0 & H). eapply C04_remove_cdata; eauto.
